@@ -1,3 +1,4 @@
+mod camt;
 mod conv;
 mod csvimp;
 mod diag;
@@ -33,6 +34,7 @@ fn main() {
         "ledger" => runner::run_records(&opts, ledger::replay),
         "ledger-alias" => { let w = workdir.clone(); runner::run_records(&opts, move |i, r| ledger::replay_alias(i, r, &w)) }
         "conv" => { let w = workdir.clone(); runner::run_records(&opts, move |i, r| conv::replay(i, r, &w)) }
+        "camt" => { let w = workdir.clone(); runner::run_records(&opts, move |i, r| camt::replay(i, r, &w)) }
         "csv" => { let w = workdir.clone(); runner::run_records(&opts, move |i, r| csvimp::replay(i, r, &w)) }
         "diag" => { let w = workdir.clone(); runner::run_records(&opts, move |i, r| diag::replay(i, r, &w)) }
         "expr" => runner::run_records(&opts, expr::replay),
